@@ -328,6 +328,8 @@ func c02GetLoc(c *z80.CPU, m *flatMem, e *aluEnc, dataAddr uint16) uint8 {
 
 // c02Point runs one cube point; returns "" or a mismatch description.
 func c02Point(c *z80.CPU, m *flatMem, e *aluEnc, base *z80.States, dataAddr uint16, a, v, f uint8) string {
+	// the CPU value is a plain struct copy of one that has executed before (see the enumeration loop):
+	// anything cached inside it must not refer back to the struct it was copied from
 	c.States = *base
 	c.AF.Hi, c.AF.Lo = a, f
 	c02SetLoc(c, m, e, dataAddr, v)
@@ -399,10 +401,14 @@ func c02RunPoint(p aluPoint) (string, error) {
 			continue
 		}
 		m := &flatMem{}
-		c := &z80.CPU{Memory: m}
+		first := &z80.CPU{Memory: m}
 		base, da := c02Base(e, p.Seed, ei)
 		copy(m.m[c02CodeBase:], e.code)
-		return c02Point(c, m, e, &base, da, uint8(p.A), uint8(p.V), uint8(p.F)), nil
+		// the enumeration runs every point on a copy of the CPU value that ran the previous one
+		c02Point(first, m, e, &base, da, ^uint8(p.A), ^uint8(p.V), ^uint8(p.F))
+		second := *first
+		first.States = z80.States{}
+		return c02Point(&second, m, e, &base, da, uint8(p.A), uint8(p.V), uint8(p.F)), nil
 	}
 	return "", fmt.Errorf("unknown encoding %q", p.Enc)
 }
@@ -458,7 +464,9 @@ func TestC02(t *testing.T) {
 		go func() {
 			defer wg.Done()
 			m := &flatMem{}
-			c := &z80.CPU{Memory: m}
+			cpus := [2]z80.CPU{{Memory: m}, {Memory: m}}
+			c := &cpus[0]
+			flip := 0
 			var ev, nt int64
 			for j := range jobs {
 				if atomic.LoadInt32(&stop) != 0 {
@@ -476,6 +484,10 @@ func TestC02(t *testing.T) {
 						}
 						for _, f := range fs {
 							ev++
+							// ping-pong: every point runs on a struct copy of the CPU value that ran the previous one
+							flip ^= 1
+							cpus[flip] = *c
+							c = &cpus[flip]
 							msg := c02Point(c, m, e, &base, da, uint8(a), uint8(v), f)
 							if msg != "" {
 								mu.Lock()
